@@ -1,16 +1,679 @@
 import DracoModel.Spec
 import DracoModel.SeqDecoder
+import DracoModel.SeqEncoder
+import DracoProofs.SeqGeometry
+import DracoProofs.SeqRows
+import DracoProofs.SpecCheck
+import DracoProofs.OctaFloat
 /-
-  C01 — encode/decode round trip (property theorems; the layer theorems live in C08/C16/C17/C04).
-  Placeholder until the composed sequential theorem is merged: facts about the specification
-  relation itself, so that the checker used on implementation outputs is not vacuous.
+  C01 — encode/decode round trip, composed and machine checked for the SEQUENTIAL methods
+  (`POINT_CLOUD_SEQUENTIAL_ENCODING`, `MESH_SEQUENTIAL_ENCODING`), against the decoder model
+  `decodeGeometry` that the correspondence check ties to the C++ decoders, with the encoder model
+  `SeqEnc.encodeGeometry` that the driver op `seqenc` ties to the C++ encoders byte for byte.
+
+  Main theorems (for ALL choices of the encoder heuristics — prediction method selected by
+  `SelectPredictionMethod`, tagged/raw symbol scheme, probability table rounding —, all options, all
+  geometries in the domain `GeomOK`):
+
+    `pointcloud_seq_roundtrip`, `mesh_seq_roundtrip`
+        encodeGeometry ch g md opts = some bs  →
+        decodeGeometry {} {rest := bs ++ extra} = (some ⟨expected g opts, md⟩, st) ∧ st.rest = extra
+
+  `expected g opts` (DracoModel/SeqEncoder.lean) keeps the number and the order of points and faces and
+  maps every attribute to identity (generic and integer encoders), `dequantize ∘ quantize` or
+  `octahedral decode ∘ encode` — by the same float-oracle expressions the encoder / decoder
+  evaluate, so no floating point reasoning is involved.  `st.rest = extra` is the trailing-bytes
+  clause of C06; the composable form is C20's "decoder consumes exactly the encoder's bytes".
+
+  Intermediate theorems: `predictive_coding_invertible`, `seq_values_roundtrip`,
+  `seq_attr_roundtrip_{generic,integer,quantization,normal}`, `seq_connectivity_roundtrip`.
+
+  Hypotheses (all in `GeomOK` / `AttOK`, DracoProofs/SeqGeometry.lean, SeqAttrs.lean):
+    * 0 < numPoints < 2^31, numPoints * numComponents < 2^31  (`int` counts of the C++; EMPTY geometries
+      are not handled by the sequential coders: known finding `empty-geometry`),
+    * faces ≤ (2^32-1)/3, faces refer to existing points, attributes structurally valid (C03),
+      value buffers consist of bytes, attribute type < 5 (named types), data type ≤ 11,
+      ≤ 255 components, unique id < 2^32, fewer than 2^32 attributes,
+    * explicitly configured quantization parameters are float32 bit patterns,
+    * metadata is well formed (`GeometryMetadata.WF'`, C11),
+    * for normals coded by the normal encoder: `octaEntryOK` — the octahedral coordinates the float code
+      computed are canonical points of the grid; implied by the float oracle hypothesis `octaRowOK`
+      (|first rounded octahedral coordinate| ≤ center value, `octaEntryOK_of_rowOK`), which in turn
+      holds for every float evaluation obeying the standard rounding model (`octa_round_in_range`,
+      section 8) — evaluated on every correspondence case by the driver op; not provable for the
+      concrete `Float` instance in Lean, whose operations are opaque.
+  NOT hypotheses: anything about the values of integer attributes (uint32 values above INT32_MAX make
+  the encoder FAIL, `encodeGeometry = none`), value ranges (ranges ≥ 2^31-1 switch the prediction
+  off), prediction scheme options, speeds, quantization bit counts (invalid ones make the encoder fail).
 -/
 namespace Draco.C01
-open Draco
+open Draco Draco.SeqEnc
 
 /-- the identity transform reproduces the row -/
 theorem expectedRow_none (row : Bytes) : Spec.expectedRow .none row = row := rfl
 
 example : Spec.expectedRow .none [1, 2, 3] = [1, 2, 3] := rfl
+
+/-! ## 1. prediction -/
+
+/-- **Predictive coding is invertible**: the decoder loop `deltaDecode` over the corrections
+    `deltaEncode` computed from the prefix predictions reproduces the entries, for ANY correction
+    transform with `dec p (enc e p) = e` on its domain (`Dom` for data entries, `Pred` for
+    predictions; the all-zero initial prediction and every entry must be admissible predictions). -/
+theorem predictive_coding_invertible (enc dec : List Int → List Int → List Int) (nc : Nat)
+    (hnc : 0 < nc) (Dom Pred : List Int → Prop)
+    (hlen : ∀ e p, Dom e → Pred p → (enc e p).length = nc)
+    (hinv : ∀ e p, Dom e → Pred p → dec p (enc e p) = e)
+    (hstep : ∀ e, Dom e → Pred e) (h0 : Pred (List.replicate nc 0))
+    (es : List (List Int)) (hes : ∀ e ∈ es, Dom e) :
+    deltaDecode dec nc (deltaEncode enc (List.replicate nc 0) es).flatten = es.flatten :=
+  Draco.predictive_coding_invertible enc dec nc hnc Dom Pred hlen hinv hstep h0 es hes
+
+/-- non-vacuity: plain differences on 2-component entries -/
+example : deltaDecode (fun p c => List.zipWith (· + ·) p c) 2
+    (deltaEncode (fun e p => List.zipWith (· - ·) e p) [0, 0] [[5, 7], [6, 6], [0, -3]]).flatten
+    = [5, 7, 6, 6, 0, -3] :=
+  predictive_coding_invertible (fun e p => List.zipWith (· - ·) e p)
+    (fun p c => List.zipWith (· + ·) p c) 2 (by decide)
+    (fun e => e.length = 2) (fun p => p.length = 2)
+    (fun e p he hp => by simp [he, hp])
+    (fun e p he hp => by
+      match e, p, he, hp with
+      | [a, b], [c, d], _, _ => simp only [List.zipWith_cons_cons, List.zipWith_nil_left, List.cons.injEq, and_true]; omega)
+    (fun e he => he) rfl [[5, 7], [6, 6], [0, -3]] (by decide)
+
+/-! ## 2. attribute values -/
+
+/-- **`SequentialIntegerAttributeDecoder::DecodeValues` inverts `EncodeValues`** for the portable
+    int32 values of the integer (kind 1), quantization (2) and normal (3) encoders: whatever
+    prediction variant (none / delta + wrap / delta + canonicalized octahedron), symbol coded or raw
+    byte path and whatever choices the encoder took, the decoder returns the portable values and
+    stops exactly behind the encoder's bytes (`Runs`: for every state whose input starts with `bs`). -/
+theorem seq_values_roundtrip (ch : Choices) (level : Nat) (builtin : Bool) (i kind nc n : Nat)
+    (pred : Bool) (octa : Option OctaT) (numValues : Nat) (portable : List Int) (bs : Bytes) (v : Nat)
+    (hv : bsVersion 2 0 ≤ v) (hnc : 0 < nc) (hn : 0 < n) (hlen : portable.length = n * nc)
+    (h32 : n * nc < 2 ^ 32) (hr : ∀ x ∈ portable, -2 ^ 31 ≤ x ∧ x < 2 ^ 31) (hnv : numValues ≠ 0)
+    (hocta : kind = 3 → nc = 2 ∧ ∃ q t, Octa.init q = some t ∧ octa = some t ∧
+      ∀ e ∈ entriesOf 2 portable.length portable, OctaEntry t e)
+    (henc : encodeIntegerValues ch level builtin i kind nc pred octa numValues portable = some bs)
+    (s : DSt) (extra : Bytes) (hs : s.rest = bs ++ extra) (hsv : s.version = v) :
+    ∃ s', decodeIntegerValues kind n nc s = (some portable, s') ∧ s'.rest = extra :=
+  let ⟨s', h1, h2, _⟩ := (runs_intValues ch level builtin i kind nc n pred octa numValues portable bs v
+    hv hnc hn hlen h32 hr hnv hocta henc).run s extra hs hsv
+  ⟨s', h1, h2⟩
+
+/-- non-vacuity (wrap prediction, raw bytes): the int32 values `[100, -3, 250, 7]` as two entries -/
+example : ∃ s', decodeIntegerValues 1 2 2
+      { rest := [0, 1, 0, 1, 200, 5, 207, 20, 253, 255, 255, 255, 250, 0, 0, 0] ++ [9], version := 515 }
+      = (some [100, -3, 250, 7], s') ∧ s'.rest = [9] :=
+  seq_values_roundtrip ⟨ProbOracle.exact, fun _ => 0, fun _ => .tagged, .tagged⟩ 7 false 0 1 2 2 true none 1
+    [100, -3, 250, 7] _ 515 (by decide) (by decide) (by decide) rfl (by decide) (by decide) (by decide)
+    (fun h => absurd h (by decide)) (by decide +kernel) _ [9] rfl rfl
+
+/-- generic encoder (`SequentialAttributeEncoder::EncodeValues`): the raw values in point order;
+    the decoder reads them back as they are -/
+theorem seq_attr_roundtrip_generic (ch : Choices) (opts : EncOpts) (n i : Nat) (a : Attribute)
+    (e : AttEnc) (_hn : 0 < n) (hok : AttOK a (opts.att i) n)
+    (hty : encoderType a (opts.att i) = 0)
+    (henc : encodeAttribute ch opts n i a = some e) (extra : Bytes) :
+    e.encType = 0 ∧ e.valueBytes = (pointRows a n).flatten ∧ e.transformBytes = [] ∧
+    readBytes (n * a.stride) (e.valueBytes ++ extra) = some ((pointRows a n).flatten, extra) ∧
+    expectedAttribute n a e = (descOf a).toAttribute n (pointRows a n).flatten := by
+  obtain ⟨hrl, hrs⟩ := pointRows_spec a n hok.valid
+  rcases encodeAttribute_cases ch opts n i a e henc with ⟨_, rfl⟩ | ⟨h, _⟩ | ⟨h, _⟩ | ⟨h, _⟩ <;>
+    try (rw [hty] at h; cases h)
+  refine ⟨rfl, rfl, rfl, ?_, rfl⟩
+  have hl : (pointRows a n).flatten.length = n * a.stride := by
+    rw [flatten_length_uniform a.stride _ hrs, hrl]
+  simp only [readBytes, List.length_append, hl]
+  rw [if_neg (by omega), ← hl]
+  simp
+
+/-- integer encoder: `PrepareValues` (conversion to int32), `EncodeValues` → `DecodeValues`,
+    `StoreValues` (narrowing) give back the attribute's value bytes -/
+theorem seq_attr_roundtrip_integer (ch : Choices) (opts : EncOpts) (n i : Nat) (a : Attribute)
+    (e : AttEnc) (hn : 0 < n) (hok : AttOK a (opts.att i) n)
+    (hty : encoderType a (opts.att i) = 1)
+    (henc : encodeAttribute ch opts n i a = some e) (v : Nat) (hv : bsVersion 2 0 ≤ v) :
+    e.encType = 1 ∧ Runs (decodeIntegerValues 1 n a.numComponents) v e.valueBytes e.portable v ∧
+    (e.portable.map (intToLE (dataTypeLength a.dataType))).flatten = (pointRows a n).flatten ∧
+    expectedAttribute n a e = (descOf a).toAttribute n (pointRows a n).flatten := by
+  have f := attFacts ch opts n i a e hn hok henc
+  rcases encodeAttribute_cases ch opts n i a e henc with ⟨h, _⟩ | ⟨_, p, vb, _, _, rfl⟩ | ⟨h, _⟩ | ⟨h, _⟩ <;>
+    try (rw [hty] at h; cases h)
+  exact ⟨rfl, f.vals (by simp) v hv, (f.tr1 rfl).2.2.2.2, rfl⟩
+
+/-- quantization encoder: the decoder reads back the quantized values and the transform
+    parameters; the decoded attribute is `dequantize (quantize x)` by the decoder's expressions -/
+theorem seq_attr_roundtrip_quantization (ch : Choices) (opts : EncOpts) (n i : Nat) (a : Attribute)
+    (e : AttEnc) (hn : 0 < n) (hok : AttOK a (opts.att i) n)
+    (hty : encoderType a (opts.att i) = 2)
+    (henc : encodeAttribute ch opts n i a = some e) (v : Nat) (hv : bsVersion 2 0 ≤ v) :
+    ∃ mins range q, quantizationParams a (opts.att i) = some (mins, range, q) ∧
+      e.encType = 2 ∧ e.portable = quantizedPortable mins range q a.numComponents (pointRows a n) ∧
+      Runs (decodeIntegerValues 2 n a.numComponents) v e.valueBytes e.portable v ∧
+      e.transformBytes = mins.flatMap (writeLE 4) ++ writeLE 4 range ++ [q % 256] ∧
+      1 ≤ q ∧ q ≤ 30 ∧ mins.length = a.numComponents ∧
+      expectedAttribute n a e = (descOf a).toAttribute n
+        (dequantAll range q mins e.portable mins []).flatten := by
+  have f := attFacts ch opts n i a e hn hok henc
+  rcases encodeAttribute_cases ch opts n i a e henc with ⟨h, _⟩ | ⟨h, _⟩ | ⟨_, mins, range, q, vb, hq, _, rfl⟩ | ⟨h, _⟩ <;>
+    try (rw [hty] at h; cases h)
+  obtain ⟨q1, q30, _, qml, _, _⟩ := quantizationParams_spec a (opts.att i) mins range q hok.explicit hq
+  exact ⟨mins, range, q, hq, rfl, rfl, f.vals (by simp) v hv, rfl, q1, q30, qml, by
+    simp only [expectedAttribute, Int.toNat_natCast]⟩
+
+/-- normal encoder: the decoder reads back the octahedral coordinates and the bit count; the decoded
+    attribute is `OctahedralCoordsToUnitVector (FloatVectorToQuantizedOctahedralCoords x)` -/
+theorem seq_attr_roundtrip_normal (ch : Choices) (opts : EncOpts) (n i : Nat) (a : Attribute)
+    (e : AttEnc) (hn : 0 < n) (hok : AttOK a (opts.att i) n)
+    (hty : encoderType a (opts.att i) = 3)
+    (henc : encodeAttribute ch opts n i a = some e) (v : Nat) (hv : bsVersion 2 0 ≤ v) :
+    ∃ t, Octa.init (opts.att i).quantBits.toNat = some t ∧
+      e.encType = 3 ∧ e.portable = octaPortable t (pointRows a n) ∧
+      Runs (decodeIntegerValues 3 n 2) v e.valueBytes e.portable v ∧
+      e.transformBytes = [(opts.att i).quantBits.toNat % 256] ∧
+      expectedAttribute n a e = (descOf a).toAttribute n
+        (octaAll (opts.att i).quantBits.toNat e.portable []).flatten := by
+  have f := attFacts ch opts n i a e hn hok henc
+  rcases encodeAttribute_cases ch opts n i a e henc with ⟨h, _⟩ | ⟨h, _⟩ | ⟨h, _⟩ | ⟨_, _, t, vb, ht, _, rfl⟩ <;>
+    try (rw [hty] at h; cases h)
+  exact ⟨t, ht, rfl, rfl, f.vals (by simp) v hv, rfl, by simp only [expectedAttribute, Int.toNat_natCast]⟩
+
+/-! ## 3. connectivity -/
+
+/-- **Sequential mesh connectivity**: raw u8 / u16 / varint / u32 indices (by number of points)
+    and entropy coded index differences (`compress_connectivity`, any scheme choice): the decoder
+    returns the number of points and the faces in order and consumes exactly the block. -/
+theorem seq_connectivity_roundtrip (ch : Choices) (opts : EncOpts) (numPoints : Nat)
+    (faces : List (Nat × Nat × Nat)) (bs : Bytes)
+    (hnf : faces.length ≤ 0xffffffff / 3) (hnp : numPoints < 2 ^ 31)
+    (hvalid : faces.all (fun (a, b, c) => a < numPoints && b < numPoints && c < numPoints) = true)
+    (henc : encodeConnectivity ch opts numPoints faces = some bs)
+    (s : DSt) (extra : Bytes) (hs : s.rest = bs ++ extra) (hsv : s.version = bsVersion 2 2) :
+    ∃ s', decodeSeqConnectivity s = (some (numPoints, faces), s') ∧ s'.rest = extra :=
+  let ⟨s', h1, h2, _⟩ := (runs_decodeSeqConnectivity ch opts numPoints faces bs (bsVersion 2 2)
+    (Nat.le_refl _) hnf hnp hvalid henc).run s extra hs hsv
+  ⟨s', h1, h2⟩
+
+/-- non-vacuity: two faces on four points, raw u8 indices -/
+example : ∃ s', decodeSeqConnectivity { rest := [2, 4, 1, 0, 1, 2, 2, 1, 3] ++ [7, 7], version := 514 }
+    = (some (4, [(0, 1, 2), (2, 1, 3)]), s') ∧ s'.rest = [7, 7] :=
+  seq_connectivity_roundtrip ⟨ProbOracle.exact, fun _ => 0, fun _ => .tagged, .tagged⟩ {} 4
+    [(0, 1, 2), (2, 1, 3)] _ (by decide) (by decide) (by decide) (by decide +kernel) _ [7, 7] rfl rfl
+
+/-! ## 4. the composed theorems -/
+
+/-- both geometry kinds at once, with the per-attribute encoder states exposed -/
+theorem seq_roundtrip_full (ch : Choices) (g : Geometry) (md : Option GeometryMetadata)
+    (opts : EncOpts) (bs : Bytes) (encs : List AttEnc) (hok : GeomOK g opts)
+    (hmd : ∀ m, md = some m → m.WF')
+    (henc : encodeGeometryFull ch g md opts = some (bs, encs)) (extra : Bytes) :
+    ∃ st, decodeGeometry {} { rest := bs ++ extra } = (some ⟨expected g opts, md⟩, st) ∧
+      st.rest = extra := by
+  obtain ⟨st, h1, h2, _⟩ := (runs_decodeGeometry ch g md opts bs encs hok hmd henc).run
+    { rest := bs ++ extra } extra rfl rfl
+  rw [expectedGeometry_eq ch g md opts bs encs henc] at h1
+  exact ⟨st, h1, h2⟩
+
+theorem seq_roundtrip (ch : Choices) (g : Geometry) (md : Option GeometryMetadata)
+    (opts : EncOpts) (bs : Bytes) (hok : GeomOK g opts) (hmd : ∀ m, md = some m → m.WF')
+    (henc : encodeGeometry ch g md opts = some bs) (extra : Bytes) :
+    ∃ st, decodeGeometry {} { rest := bs ++ extra } = (some ⟨expected g opts, md⟩, st) ∧
+      st.rest = extra := by
+  unfold encodeGeometry at henc
+  cases hf : encodeGeometryFull ch g md opts with
+  | none => rw [hf] at henc; cases henc
+  | some r =>
+    obtain ⟨bs', encs⟩ := r
+    rw [hf] at henc
+    simp only [Option.map_some, Option.some.injEq] at henc
+    subst henc
+    exact seq_roundtrip_full ch g md opts bs' encs hok hmd hf extra
+
+/-- **C01 for `POINT_CLOUD_SEQUENTIAL_ENCODING`** (and C06 trailing bytes, C20 self-delimitation):
+    for every point cloud in the domain, ALL choices of the encoder heuristics and ALL options —
+    if the encoder produces a stream, the decoder applied to that stream followed by arbitrary bytes
+    `extra` returns exactly `expected g opts` (same points in the same order; identity /
+    dequant∘quant / octahedral decode∘encode per attribute) and the metadata, and leaves exactly
+    `extra` unread. -/
+theorem pointcloud_seq_roundtrip (ch : Choices) (g : Geometry) (md : Option GeometryMetadata)
+    (opts : EncOpts) (bs : Bytes) (_hpc : g.isMesh = false) (hok : GeomOK g opts)
+    (hmd : ∀ m, md = some m → m.WF')
+    (henc : encodeGeometry ch g md opts = some bs) (extra : Bytes) :
+    ∃ st, decodeGeometry {} { rest := bs ++ extra } = (some ⟨expected g opts, md⟩, st) ∧
+      st.rest = extra :=
+  seq_roundtrip ch g md opts bs hok hmd henc extra
+
+/-- **C01 for `MESH_SEQUENTIAL_ENCODING`**: as above; in addition the faces come back in the same
+    order with the same point ids (raw or compressed connectivity). -/
+theorem mesh_seq_roundtrip (ch : Choices) (g : Geometry) (md : Option GeometryMetadata)
+    (opts : EncOpts) (bs : Bytes) (_hmesh : g.isMesh = true) (hok : GeomOK g opts)
+    (hmd : ∀ m, md = some m → m.WF')
+    (henc : encodeGeometry ch g md opts = some bs) (extra : Bytes) :
+    ∃ st, decodeGeometry {} { rest := bs ++ extra } = (some ⟨expected g opts, md⟩, st) ∧
+      st.rest = extra :=
+  seq_roundtrip ch g md opts bs hok hmd henc extra
+
+/-- what `expected` keeps: kind, number of points, faces (of a mesh) -/
+theorem expected_keeps_connectivity (g : Geometry) (opts : EncOpts) (h : g.isMesh = true) :
+    (expected g opts).numPoints = g.numPoints ∧ (expected g opts).faces = g.faces ∧
+      (expected g opts).atts.length = g.atts.length := by
+  refine ⟨rfl, by simp [expected, h], ?_⟩
+  simp only [expected, List.length_map]
+  have : ∀ (l : List Attribute) k, (zipIdxFrom k l).length = l.length := by
+    intro l; induction l with
+    | nil => intro _; rfl
+    | cons a as ih => intro k; simp [zipIdxFrom, ih]
+  exact this _ _
+
+/-- an attribute coded by the generic or the integer encoder is reproduced bit for bit, in point order -/
+theorem expected_identity (opts : EncOpts) (n i : Nat) (a : Attribute)
+    (h : encoderType a (opts.att i) = 0 ∨ encoderType a (opts.att i) = 1) :
+    expectedAttributeOf opts n i a = (descOf a).toAttribute n (pointRows a n).flatten := by
+  unfold expectedAttributeOf
+  rcases h with h | h <;> simp only [h]
+
+/-! ### non-vacuity of the composed theorems -/
+
+/-- a point cloud: 3 points, an unquantized float32 attribute (generic encoder) with an explicit point map, and
+    an int16 attribute (delta + wrap prediction) -/
+def samplePC : Geometry :=
+  { isMesh := false, numPoints := 3, faces := [],
+    atts := [
+      { attType := 4, dataType := 9, numComponents := 1, normalized := false, uniqueId := 7,
+        numValues := 2, map := some [1, 0, 1], values := [1, 2, 3, 4, 5, 6, 7, 8] },
+      { attType := 0, dataType := 3, numComponents := 1, normalized := false, uniqueId := 0,
+        numValues := 3, map := none, values := [255, 255, 5, 0, 0, 1] } ] }
+
+def sampleChoices : Choices := ⟨ProbOracle.exact, fun _ => 0, fun _ => .tagged, .tagged⟩
+def sampleOpts : EncOpts := { builtin := false }
+
+theorem attOK_of_decide (a : Attribute) (o : AttOpts) (n : Nat)
+    (h1 : a.valid n = true) (h2 : a.values.all (· < 256) = true) (h3 : a.attType < 5)
+    (h4 : a.dataType ≤ 11) (h5 : a.numComponents ≤ 255) (h6 : a.uniqueId < 2 ^ 32)
+    (h7 : n * a.numComponents < 2 ^ 31) (h8 : o.explicitQuant = none) (h9 : encoderType a o ≠ 3) :
+    AttOK a o n :=
+  ⟨h1, fun b hb => by simpa using List.all_eq_true.1 h2 b hb, h3, h4, h5, h6, h7,
+    fun org r h => (by rw [h8] at h; cases h), fun h => absurd h h9⟩
+
+theorem samplePC_ok : GeomOK samplePC sampleOpts := by
+  refine ⟨by decide, by decide, by decide, by decide, by decide, ?_⟩
+  intro i a h
+  match i, h with
+  | 0, h =>
+    simp only [samplePC, List.getElem?_cons_zero, Option.some.injEq] at h
+    subst h
+    exact attOK_of_decide _ _ _ (by decide) (by decide) (by decide) (by decide) (by decide)
+      (by decide) (by decide) rfl (by decide)
+  | 1, h =>
+    simp only [samplePC, List.getElem?_cons_succ, List.getElem?_cons_zero, Option.some.injEq] at h
+    subst h
+    exact attOK_of_decide _ _ _ (by decide) (by decide) (by decide) (by decide) (by decide)
+      (by decide) (by decide) rfl (by decide)
+  | i + 2, h => simp [samplePC] at h
+
+theorem samplePC_encodes : encodeGeometry sampleChoices samplePC none sampleOpts = some
+    [68, 82, 65, 67, 79, 2, 3, 0, 0, 0, 0, 3, 0, 0, 0, 1, 2, 4, 9, 1, 0, 7, 0, 3, 1, 0, 0, 0, 1,
+     5, 6, 7, 8, 1, 2, 3, 4, 5, 6, 7, 8, 0, 1, 0, 1, 1, 12, 13, 255, 255, 255, 255, 0, 1, 0, 0] := by
+  decide +kernel
+
+example : ∃ st, decodeGeometry {} { rest :=
+      [68, 82, 65, 67, 79, 2, 3, 0, 0, 0, 0, 3, 0, 0, 0, 1, 2, 4, 9, 1, 0, 7, 0, 3, 1, 0, 0, 0, 1,
+       5, 6, 7, 8, 1, 2, 3, 4, 5, 6, 7, 8, 0, 1, 0, 1, 1, 12, 13, 255, 255, 255, 255, 0, 1, 0, 0] ++ [1, 2, 3] }
+      = (some ⟨expected samplePC sampleOpts, none⟩, st) ∧ st.rest = [1, 2, 3] :=
+  pointcloud_seq_roundtrip sampleChoices samplePC none sampleOpts _ rfl samplePC_ok
+    (fun m h => by cases h) samplePC_encodes [1, 2, 3]
+
+/-- … and what comes back is the input with the point map resolved -/
+example : (expected samplePC sampleOpts).atts.map (·.values) =
+    [[5, 6, 7, 8, 1, 2, 3, 4, 5, 6, 7, 8], [255, 255, 5, 0, 0, 1]] := by decide +kernel
+
+/-- non-vacuity of `seq_attr_roundtrip_generic`: the unquantized float attribute of `samplePC` -/
+example : ∃ e, encodeAttribute sampleChoices sampleOpts 3 0
+      { attType := 4, dataType := 9, numComponents := 1, normalized := false, uniqueId := 7,
+        numValues := 2, map := some [1, 0, 1], values := [1, 2, 3, 4, 5, 6, 7, 8] } = some e ∧
+    e.encType = 0 ∧ e.valueBytes = [5, 6, 7, 8, 1, 2, 3, 4, 5, 6, 7, 8] := by
+  have h : (encodeAttribute sampleChoices sampleOpts 3 0
+      { attType := 4, dataType := 9, numComponents := 1, normalized := false, uniqueId := 7,
+        numValues := 2, map := some [1, 0, 1], values := [1, 2, 3, 4, 5, 6, 7, 8] }).isSome = true := by
+    decide +kernel
+  obtain ⟨e, he⟩ := Option.isSome_iff_exists.1 h
+  obtain ⟨h1, h2, _, _, _⟩ := seq_attr_roundtrip_generic sampleChoices sampleOpts 3 0 _ e (by decide)
+    (attOK_of_decide _ _ _ (by decide) (by decide) (by decide) (by decide) (by decide) (by decide)
+      (by decide) rfl (by decide)) (by decide) he []
+  exact ⟨e, he, h1, by rw [h2]; decide +kernel⟩
+
+/-- non-vacuity of `seq_attr_roundtrip_integer`: the int16 attribute of `samplePC` -/
+example : ∃ e, encodeAttribute sampleChoices sampleOpts 3 1
+      { attType := 0, dataType := 3, numComponents := 1, normalized := false, uniqueId := 0,
+        numValues := 3, map := none, values := [255, 255, 5, 0, 0, 1] } = some e ∧
+    e.encType = 1 ∧ (e.portable.map (intToLE 2)).flatten = [255, 255, 5, 0, 0, 1] := by
+  have h : (encodeAttribute sampleChoices sampleOpts 3 1
+      { attType := 0, dataType := 3, numComponents := 1, normalized := false, uniqueId := 0,
+        numValues := 3, map := none, values := [255, 255, 5, 0, 0, 1] }).isSome = true := by
+    decide +kernel
+  obtain ⟨e, he⟩ := Option.isSome_iff_exists.1 h
+  obtain ⟨h1, _, h3, _⟩ := seq_attr_roundtrip_integer sampleChoices sampleOpts 3 1 _ e (by decide)
+    (attOK_of_decide _ _ _ (by decide) (by decide) (by decide) (by decide) (by decide) (by decide)
+      (by decide) rfl (by decide)) (by decide) he 515 (by decide)
+  exact ⟨e, he, h1, by rw [show dataTypeLength 3 = 2 from by decide] at h3; rw [h3]; decide +kernel⟩
+
+/- `seq_attr_roundtrip_quantization` / `seq_attr_roundtrip_normal`: their hypotheses mention the
+   executable `Float32` quantizer, which the Lean kernel cannot evaluate; that they are satisfiable is
+   witnessed by the driver (`seqenc` cases tagged `seqenc:ok:dom-ok` with quantized positions /
+   normals: the op evaluates the hypotheses `domainOf` and the conclusion `rt-ok` on each of them).
+   Their integer core is `seq_values_roundtrip`; a concrete instance of its octahedral branch: -/
+example : ∃ s', decodeIntegerValues 3 2 2
+      { rest := [0, 3, 0, 1, 2, 0, 6, 4, 7, 0, 0, 0, 3, 0, 0, 0] ++ [5], version := 514 }
+      = (some [6, 4, 3, 3], s') ∧ s'.rest = [5] :=
+  seq_values_roundtrip sampleChoices 7 false 0 3 2 2 true (some ⟨3, 7, 6, 3⟩) 1 [6, 4, 3, 3] _ 514
+    (by decide) (by decide) (by decide) rfl (by decide) (by decide) (by decide)
+    (fun _ => ⟨rfl, 3, ⟨3, 7, 6, 3⟩, by decide, rfl, by
+      intro e he
+      have : e = [6, 4] ∨ e = [3, 3] := by
+        have hm : entriesOf 2 ([6, 4, 3, 3] : List Int).length [6, 4, 3, 3] = [[6, 4], [3, 3]] := by decide
+        rw [hm] at he; simpa using he
+      rcases this with rfl | rfl
+      · exact ⟨6, 4, rfl, by decide, by decide⟩
+      · exact ⟨3, 3, rfl, by decide, by decide⟩⟩)
+    (by decide +kernel) _ [5] rfl rfl
+
+/-- a mesh: 4 points, 2 faces, compressed connectivity, one int32 attribute, symbol coding -/
+def sampleMesh : Geometry :=
+  { isMesh := true, numPoints := 4, faces := [(0, 1, 2), (2, 1, 3)],
+    atts := [
+      { attType := 0, dataType := 5, numComponents := 1, normalized := false, uniqueId := 3,
+        numValues := 4, map := none, values := [1, 0, 0, 0, 2, 0, 0, 0, 255, 255, 255, 255, 9, 0, 0, 0] } ] }
+
+def sampleMeshOpts : EncOpts := { compressConnectivity := true }
+
+theorem sampleMesh_ok : GeomOK sampleMesh sampleMeshOpts := by
+  refine ⟨by decide, by decide, by decide, by decide, by decide, ?_⟩
+  intro i a h
+  match i, h with
+  | 0, h =>
+    simp only [sampleMesh, List.getElem?_cons_zero, Option.some.injEq] at h
+    subst h
+    exact attOK_of_decide _ _ _ (by decide) (by decide) (by decide) (by decide) (by decide)
+      (by decide) (by decide) rfl (by decide)
+  | i + 1, h => simp [sampleMesh] at h
+
+theorem sampleMesh_encodes : ∃ bs, encodeGeometry sampleChoices sampleMesh none sampleMeshOpts = some bs := by
+  have : (encodeGeometry sampleChoices sampleMesh none sampleMeshOpts).isSome = true := by decide +kernel
+  exact Option.isSome_iff_exists.1 this
+
+example : ∃ bs st, encodeGeometry sampleChoices sampleMesh none sampleMeshOpts = some bs ∧
+    decodeGeometry {} { rest := bs ++ [42] } = (some ⟨expected sampleMesh sampleMeshOpts, none⟩, st) ∧
+    st.rest = [42] ∧ (expected sampleMesh sampleMeshOpts).faces = [(0, 1, 2), (2, 1, 3)] := by
+  obtain ⟨bs, hbs⟩ := sampleMesh_encodes
+  obtain ⟨st, h1, h2⟩ := mesh_seq_roundtrip sampleChoices sampleMesh none sampleMeshOpts bs rfl
+    sampleMesh_ok (fun m h => by cases h) hbs [42]
+  exact ⟨bs, st, hbs, h1, h2, rfl⟩
+
+/-! ## 5. decoding with skipped attribute transforms (C10 on encoder outputs) -/
+
+/-- **`seq_skip_roundtrip`**: decoding an encoder-produced sequential stream with the attribute
+    transforms of ANY set `S` of attribute types skipped (`SetSkipAttributeTransform`) returns
+    `expectedSkip S g opts`: attributes of the integer / quantization / normal encoders whose type is
+    in `S` come back as int32 attributes holding the portable values (quantized values, octahedral
+    coordinates, or the integers themselves) with the transform data attached; everything else —
+    points, faces, the other attributes, metadata, consumed bytes — is as in the ordinary decode. -/
+theorem seq_skip_roundtrip (S : List Nat) (ch : Choices) (g : Geometry) (md : Option GeometryMetadata)
+    (opts : EncOpts) (bs : Bytes) (hok : GeomOK g opts) (hmd : ∀ m, md = some m → m.WF')
+    (henc : encodeGeometry ch g md opts = some bs) (extra : Bytes) :
+    ∃ st, decodeGeometry { skip := S } { rest := bs ++ extra } = (some ⟨expectedSkip S g opts, md⟩, st) ∧
+      st.rest = extra := by
+  obtain ⟨encs, hf⟩ := encodeGeometry_full ch g md opts bs henc
+  obtain ⟨st, h1, h2, _⟩ := (runs_decodeStreamWithSkip Eb.decodeEdgebreaker Kd.decodeKdGeometry
+    { skip := S } ch g md opts bs encs hok hmd hf).run { rest := bs ++ extra } extra rfl rfl
+  rw [expectedGeometrySkip_eq S ch g md opts bs encs hf] at h1
+  exact ⟨st, h1, h2⟩
+
+/-- non-vacuity: `samplePC` decoded with the POSITION transform skipped: the int16 position attribute
+    comes back as int32 values -1, 5, 256 -/
+example : ∃ st, decodeGeometry { skip := [0] } { rest :=
+      [68, 82, 65, 67, 79, 2, 3, 0, 0, 0, 0, 3, 0, 0, 0, 1, 2, 4, 9, 1, 0, 7, 0, 3, 1, 0, 0, 0, 1,
+       5, 6, 7, 8, 1, 2, 3, 4, 5, 6, 7, 8, 0, 1, 0, 1, 1, 12, 13, 255, 255, 255, 255, 0, 1, 0, 0] ++ [9] }
+      = (some ⟨expectedSkip [0] samplePC sampleOpts, none⟩, st) ∧ st.rest = [9] :=
+  seq_skip_roundtrip [0] sampleChoices samplePC none sampleOpts _ samplePC_ok
+    (fun m h => by cases h) samplePC_encodes [9]
+
+example : (expectedSkip [0] samplePC sampleOpts).atts.map (fun a => (a.dataType, a.values)) =
+    [(9, [5, 6, 7, 8, 1, 2, 3, 4, 5, 6, 7, 8]),
+     (5, [255, 255, 255, 255, 5, 0, 0, 0, 0, 1, 0, 0])] := by decide +kernel
+
+/-- skipping nothing is the ordinary decode -/
+theorem expectedSkip_nil (g : Geometry) (opts : EncOpts) : expectedSkip [] g opts = expected g opts := by
+  unfold expectedSkip expected
+  congr 1
+  apply List.map_congr_left
+  intro ia _
+  simp [expectedSkipAttributeOf]
+
+/-- attributes that are not skipped (generic encoder, or type not in `S`) are identical to the
+    ordinary decode -/
+theorem seq_skip_unskipped_identical (S : List Nat) (opts : EncOpts) (n i : Nat) (a : Attribute)
+    (h : encoderType a (opts.att i) = 0 ∨ S.contains a.attType = false) :
+    expectedSkipAttributeOf S opts n i a = expectedAttributeOf opts n i a := by
+  unfold expectedSkipAttributeOf
+  rcases h with h | h
+  · simp [h]
+  · simp only [h, Bool.and_false, Bool.false_eq_true, if_false]
+
+/-- **applying the described transform to a skipped attribute gives exactly the ordinary decode**:
+    for every attribute of an encoded geometry whose transform was skipped, reinterpreting its values
+    as int32 and applying the inverse transform given by the attached transform data
+    (`applySkippedTransform`: dequantization / octahedral decoding / for plain integer attributes
+    the narrowing cast to the original type) reproduces the values of the ordinary decode bit for
+    bit; the descriptor keeps attribute type and unique id, the point map is the identity. -/
+theorem seq_skip_transform_applies (S : List Nat) (ch : Choices) (g : Geometry)
+    (md : Option GeometryMetadata) (opts : EncOpts) (bs : Bytes) (hok : GeomOK g opts)
+    (henc : encodeGeometry ch g md opts = some bs) (i : Nat) (a : Attribute)
+    (hi : g.atts[i]? = some a) (hty : encoderType a (opts.att i) ≠ 0)
+    (hs : S.contains a.attType = true) :
+    let s := expectedSkipAttributeOf S opts g.numPoints i a
+    let d := expectedAttributeOf opts g.numPoints i a
+    applySkippedTransform a.dataType s = d.values ∧
+      s.attType = d.attType ∧ s.uniqueId = d.uniqueId ∧ s.numValues = d.numValues ∧
+      s.map = d.map ∧ s.dataType = Generated.DT_INT32.toNat := by
+  intro s d
+  obtain ⟨encs, hf⟩ := encodeGeometry_full ch g md opts bs henc
+  obtain ⟨e, _, he⟩ := encodeAttribute_of_index ch g md opts bs encs hf i a hi
+  have f := attFacts ch opts g.numPoints i a e hok.points (hok.atts i a hi) he
+  obtain ⟨hty', _⟩ := portableOf_eq ch opts g.numPoints i a e he
+  have hs' : s = expectedAttributeSkip S g.numPoints a e :=
+    (expectedAttributeSkip_eq S ch opts g.numPoints i a e he).symm
+  have hd' : d = expectedAttribute g.numPoints a e :=
+    (expectedAttribute_eq ch opts g.numPoints i a e he).symm
+  have hne : e.encType ≠ 0 := by rw [hty']; exact hty
+  refine ⟨by rw [hs', hd']; exact applySkippedTransform_spec S g.numPoints a e f hne hs, ?_⟩
+  have hne' : (e.encType != 0) = true := by simpa using hne
+  rw [hs', hd']
+  simp only [expectedAttributeSkip, hne', hs, Bool.and_self, if_true, expectedAttribute,
+    AttDesc.toAttribute, descOf, and_self]
+
+/-! ## 6. corollaries cited by other properties -/
+
+/-- **C06 (trailing bytes)**: the decode result of an encoder-produced sequential stream does not
+    depend on what follows the stream, and exactly `bs.length` bytes are consumed. -/
+theorem seq_trailing_bytes_ignored (ch : Choices) (g : Geometry) (md : Option GeometryMetadata)
+    (opts : EncOpts) (bs : Bytes) (hok : GeomOK g opts) (hmd : ∀ m, md = some m → m.WF')
+    (henc : encodeGeometry ch g md opts = some bs) :
+    ∃ r : DecodeResult, ∀ extra : Bytes, ∃ st,
+      decodeGeometry {} { rest := bs ++ extra } = (some r, st) ∧
+      (bs ++ extra).length - st.rest.length = bs.length ∧ st.rest = extra := by
+  refine ⟨⟨expected g opts, md⟩, fun extra => ?_⟩
+  obtain ⟨st, h1, h2⟩ := seq_roundtrip ch g md opts bs hok hmd henc extra
+  exact ⟨st, h1, by rw [h2]; simp, h2⟩
+
+def sampleStream : Bytes :=
+  [68, 82, 65, 67, 79, 2, 3, 0, 0, 0, 0, 3, 0, 0, 0, 1, 2, 4, 9, 1, 0, 7, 0, 3, 1, 0, 0, 0, 1,
+   5, 6, 7, 8, 1, 2, 3, 4, 5, 6, 7, 8, 0, 1, 0, 1, 1, 12, 13, 255, 255, 255, 255, 0, 1, 0, 0]
+
+theorem samplePC_encodes' : encodeGeometry sampleChoices samplePC none sampleOpts = some sampleStream :=
+  samplePC_encodes
+
+example : ∃ r : DecodeResult, ∀ extra : Bytes, ∃ st,
+    decodeGeometry {} { rest := sampleStream ++ extra } = (some r, st) ∧
+      (sampleStream ++ extra).length - st.rest.length = sampleStream.length ∧ st.rest = extra :=
+  seq_trailing_bytes_ignored sampleChoices samplePC none sampleOpts sampleStream samplePC_ok
+    (fun m h => by cases h) samplePC_encodes'
+
+/-- **C09 (counts)**: the decoded geometry has the input's number of points, its faces (a point
+    cloud has none) and its number of attributes. -/
+theorem seq_counts (ch : Choices) (g : Geometry) (md : Option GeometryMetadata)
+    (opts : EncOpts) (bs : Bytes) (hok : GeomOK g opts) (hmd : ∀ m, md = some m → m.WF')
+    (henc : encodeGeometry ch g md opts = some bs) (extra : Bytes) :
+    ∃ r st, decodeGeometry {} { rest := bs ++ extra } = (some r, st) ∧
+      r.geometry.isMesh = g.isMesh ∧ r.geometry.numPoints = g.numPoints ∧
+      r.geometry.faces = (if g.isMesh then g.faces else []) ∧
+      r.geometry.atts.length = g.atts.length ∧
+      ∀ a ∈ r.geometry.atts, a.numValues = g.numPoints ∧ a.map = none := by
+  obtain ⟨st, h1, _⟩ := seq_roundtrip ch g md opts bs hok hmd henc extra
+  refine ⟨_, st, h1, rfl, rfl, rfl, ?_, ?_⟩
+  · simp only [expected, List.length_map]
+    have : ∀ (l : List Attribute) k, (zipIdxFrom k l).length = l.length := by
+      intro l; induction l with
+      | nil => intro _; rfl
+      | cons a as ih => intro k; simp [zipIdxFrom, ih]
+    exact this _ _
+  · intro a ha
+    simp only [expected, List.mem_map] at ha
+    obtain ⟨ia, _, rfl⟩ := ha
+    exact ⟨rfl, rfl⟩
+
+example : ∃ r st, decodeGeometry {} { rest :=
+      [68, 82, 65, 67, 79, 2, 3, 0, 0, 0, 0, 3, 0, 0, 0, 1, 2, 4, 9, 1, 0, 7, 0, 3, 1, 0, 0, 0, 1,
+       5, 6, 7, 8, 1, 2, 3, 4, 5, 6, 7, 8, 0, 1, 0, 1, 1, 12, 13, 255, 255, 255, 255, 0, 1, 0, 0] ++ [] }
+      = (some r, st) ∧ r.geometry.isMesh = false ∧ r.geometry.numPoints = 3 := by
+  obtain ⟨r, st, h1, h2, h3, _⟩ := seq_counts sampleChoices samplePC none sampleOpts _ samplePC_ok
+    (fun m h => by cases h) samplePC_encodes []
+  exact ⟨r, st, h1, h2, h3⟩
+
+/-- **C20 / C01 (order)**: the sequential methods keep point order and face order — the faces come
+    back as they were, and for every attribute `j` the decoded values are, point by point in the
+    order `0 … numPoints-1`, the value rows of the input's points (`pointRows`: `GetValue(mapped_index(p))`)
+    with `transformRow` applied (identity / dequantize∘quantize / octahedral decode∘encode); the decoded
+    attribute has the identity point map and keeps its unique id. -/
+theorem seq_order_preserved (ch : Choices) (g : Geometry) (md : Option GeometryMetadata)
+    (opts : EncOpts) (bs : Bytes) (hok : GeomOK g opts) (hmd : ∀ m, md = some m → m.WF')
+    (henc : encodeGeometry ch g md opts = some bs) (extra : Bytes) :
+    ∃ r st, decodeGeometry {} { rest := bs ++ extra } = (some r, st) ∧
+      r.geometry.faces = (if g.isMesh then g.faces else []) ∧
+      ∀ j a, g.atts[j]? = some a → ∃ d, r.geometry.atts[j]? = some d ∧
+        d.uniqueId = a.uniqueId ∧ d.map = none ∧ d.numValues = g.numPoints ∧
+        d.values = ((pointRows a g.numPoints).map (transformRow opts j a)).flatten := by
+  obtain ⟨st, h1, _⟩ := seq_roundtrip ch g md opts bs hok hmd henc extra
+  refine ⟨_, st, h1, rfl, fun j a hj => ?_⟩
+  have ha := hok.atts j a hj
+  refine ⟨_, expected_att g opts j a hj, rfl, rfl, rfl, ?_⟩
+  exact expectedAttributeOf_rowwise opts g.numPoints j a (ha.numValues_pos hok.points).2.1 ha.explicit
+
+/-- non-vacuity: the unquantized float attribute of `samplePC` (explicit point map 1,0,1) comes back as
+    the rows of points 0, 1, 2 -/
+example : ∃ r st, decodeGeometry {} { rest := sampleStream ++ [] } = (some r, st) ∧
+    ∃ d, r.geometry.atts[0]? = some d ∧ d.values = [5, 6, 7, 8, 1, 2, 3, 4, 5, 6, 7, 8] := by
+  obtain ⟨r, st, h1, _, h3⟩ := seq_order_preserved sampleChoices samplePC none sampleOpts sampleStream
+    samplePC_ok (fun m h => by cases h) samplePC_encodes' []
+  obtain ⟨d, hd, _, _, _, hv⟩ := h3 0 _ rfl
+  exact ⟨r, st, h1, d, hd, by rw [hv]; decide +kernel⟩
+
+/-! ## 7. the executable specification RoundTripOK accepts the proved decode result -/
+
+/-- the string-valued check evaluated by the driver on the implementation's outputs (`Spec.check`) says
+    `"ok"` exactly when the Boolean relation `Spec.checkCore` (RoundTripOK) holds -/
+theorem spec_check_ok_iff (cls : Spec.MethodClass) (req : Spec.QuantReq) (g g' gs : Geometry) :
+    Spec.check cls req g g' gs = "ok" ↔ Spec.checkCore cls req g g' gs = true :=
+  check_ok_iff cls req g g' gs
+
+example : Spec.check .sequential [] samplePC samplePC samplePC = "ok" :=
+  (spec_check_ok_iff _ _ _ _ _).2 (by decide +kernel)
+
+/-- **RoundTripOK accepts `expected g opts`** (sequential class): with the quantization request of the
+    options (`quantReq`) and the all-transforms-skipped decode `expectedSkip allTypes g opts` as the
+    source of the declared transforms.  Hypotheses beyond the domain: distinct unique ids (matching
+    is by id; the check answers `skip` otherwise) and a point cloud carries no faces. -/
+theorem spec_accepts_expected (ch : Choices) (g : Geometry) (md : Option GeometryMetadata)
+    (opts : EncOpts) (bs : Bytes) (hok : GeomOK g opts)
+    (hnd : (g.atts.map (·.uniqueId)).Nodup) (hpc : g.isMesh = false → g.faces = [])
+    (henc : encodeGeometry ch g md opts = some bs) :
+    Spec.check .sequential (quantReq g opts) g (expected g opts) (expectedSkip allTypes g opts) = "ok" :=
+  (check_ok_iff _ _ _ _ _).2 (checkCore_expected ch g md opts bs hok hnd hpc henc)
+
+/-- **The corollary the checks rely on**: for an encoder-produced sequential stream, the ordinary
+    decode and the all-transforms-skipped decode (both of the stream followed by arbitrary bytes)
+    exist, and the executable specification RoundTripOK — the very function the checks evaluate on the
+    implementation's outputs — accepts them. -/
+theorem seq_roundtrip_ok (ch : Choices) (g : Geometry) (md : Option GeometryMetadata)
+    (opts : EncOpts) (bs : Bytes) (hok : GeomOK g opts) (hmd : ∀ m, md = some m → m.WF')
+    (hnd : (g.atts.map (·.uniqueId)).Nodup) (hpc : g.isMesh = false → g.faces = [])
+    (henc : encodeGeometry ch g md opts = some bs) (extra : Bytes) :
+    ∃ r rs st st',
+      decodeGeometry {} { rest := bs ++ extra } = (some r, st) ∧
+      decodeGeometry { skip := allTypes } { rest := bs ++ extra } = (some rs, st') ∧
+      Spec.check .sequential (quantReq g opts) g r.geometry rs.geometry = "ok" := by
+  obtain ⟨st, h1, _⟩ := seq_roundtrip ch g md opts bs hok hmd henc extra
+  obtain ⟨st', h2, _⟩ := seq_skip_roundtrip allTypes ch g md opts bs hok hmd henc extra
+  exact ⟨_, _, st, st', h1, h2, spec_accepts_expected ch g md opts bs hok hnd hpc henc⟩
+
+/-- non-vacuity on `samplePC` -/
+example : ∃ r rs st st',
+    decodeGeometry {} { rest := sampleStream ++ [1] } = (some r, st) ∧
+    decodeGeometry { skip := allTypes } { rest := sampleStream ++ [1] } = (some rs, st') ∧
+    Spec.check .sequential (quantReq samplePC sampleOpts) samplePC r.geometry rs.geometry = "ok" :=
+  seq_roundtrip_ok sampleChoices samplePC none sampleOpts sampleStream samplePC_ok (fun m h => by cases h)
+    (by decide) (fun _ => rfl) samplePC_encodes' [1]
+
+/-! ## 8. the hypothesis on normals
+
+  The round-trip theorems assume `octaEntryOK` for every normal (the octahedral coordinates computed by the
+  float code are a canonical grid point).  `octaEntryOK_of_rowOK` derives it from `octaRowOK` (the first
+  rounded coordinate is at most `center_value_` in magnitude), and `octa_round_in_range` proves `octaRowOK`
+  for EVERY evaluation of the `double` operations that obeys the standard rounding model — the executable
+  model being the `Float` instance of the same generic function (`octa_float_is_generic`).  What remains
+  unproved is only that Lean's opaque `Float` (= the hardware's binary64) obeys that model. -/
+
+/-- the executable float code of the model is the `Float` instance of the generic function -/
+theorem octa_float_is_generic (t : OctaT) (v : Float32 × Float32 × Float32) :
+    Octa.floatVecRound t v = Octa.floatVecRoundG t.center v.1.toFloat v.2.1.toFloat v.2.2.toFloat :=
+  Octa.floatVecRound_eq_generic t v
+
+/-- under the standard rounding model (unit roundoff `u ≤ 2^-40`, binary64: `2^-53`) the first rounded
+    coordinate of `FloatVectorToQuantizedOctahedralCoords` has magnitude at most `center_value_`, for
+    every finite input and every `center_value_ < 2^29` (2..30 quantization bits) -/
+theorem octa_round_in_range (ops : DoubleOps ℚ) (u : ℚ) (hu0 : 0 ≤ u) (hu : u ≤ 1 / 2 ^ 40)
+    (hm : Octa.DoubleModel ops u) (c : Int) (hc1 : 1 ≤ c) (hc : c < 2 ^ 29) (x y z : ℚ) :
+    iabs (@Octa.floatVecRoundG ℚ ops c x y z).1 ≤ c :=
+  Octa.octa_round_in_range ops u hu0 hu hm c hc1 hc x y z
+
+/-- exact rational arithmetic: a model with `u = 0` -/
+@[reducible] def exactDoubleOps : DoubleOps ℚ where
+  abs a := |a|
+  add a b := a + b
+  mul a b := a * b
+  div a b := a / b
+  ofInt k := (k : ℚ)
+  floorToInt a := ⌊a⌋
+  lt a b := decide (a < b)
+  zero := 0
+  one := 1
+  half := 1 / 2
+
+theorem exactDoubleOps_model : Octa.DoubleModel exactDoubleOps 0 :=
+  ⟨fun _ => rfl, fun a b => ⟨0, by simp, by show a + b = (a + b) * (1 + 0); ring⟩,
+   fun a b => ⟨0, by simp, by show a * b = (a * b) * (1 + 0); ring⟩,
+   fun a b _ => ⟨0, by simp, by show a / b = (a / b) * (1 + 0); ring⟩,
+   fun _ => rfl, fun _ => rfl, fun _ _ => rfl, rfl, rfl, rfl⟩
+
+/-- non-vacuity: center 7 (4 bits), the vector (1/3, -2/3, 2/3) -/
+example : iabs (@Octa.floatVecRoundG ℚ exactDoubleOps 7 (1 / 3) (-2 / 3) (2 / 3)).1 ≤ 7 :=
+  octa_round_in_range exactDoubleOps 0 (le_refl _) (by norm_num) exactDoubleOps_model 7 (by decide)
+    (by decide) _ _ _
+
+/-- the float oracle hypothesis implies the hypothesis of the round-trip theorems -/
+theorem octaEntryOK_of_octaRowOK (q : Nat) (t : OctaT) (ht : Octa.init q = some t) (row : Bytes)
+    (h : octaRowOK t row = true) : octaEntryOK t (octaRow t row) = true :=
+  octaEntryOK_of_rowOK t (Octa.init_wf ht).1 row h
 
 end Draco.C01
